@@ -21,6 +21,10 @@ var (
 	fConf    = "confidentialityLayer" // layerexts.SerializableDecodingLayer
 	fInteg   = "integrityAlgorithm"   // hash.Hash (in the session struct)
 	fReading = "readingCmd"           // ipmi.GetSensorReadingCmd
+	// fields of unexported helper types, found through the types themselves
+	fTruncLen  = "length" // the integer field of the truncated-hash wrapper
+	fAkmHash   = "hash"   // the hash.Hash field of the key-material generator
+	fAesCipher = "cipher" // the cipher.Block field of ipmi.AES128CBC
 )
 
 var debugNames = func() {}
@@ -97,6 +101,39 @@ func (c *Ctx) resolveFieldNames() {
 		}
 	}
 	pick(&fReading, modPath+"/pkg/ipmi.GetSensorReadingCmd")
+	fieldOfType := func(n *types.Named, match func(types.Type) bool) string {
+		if n == nil {
+			return ""
+		}
+		st, ok := n.Underlying().(*types.Struct)
+		if !ok {
+			return ""
+		}
+		var found []string
+		for i := 0; i < st.NumFields(); i++ {
+			f := st.Field(i)
+			if !f.Embedded() && match(f.Type()) {
+				found = append(found, f.Name())
+			}
+		}
+		if len(found) == 1 {
+			return found[0]
+		}
+		return ""
+	}
+	isInt := func(t types.Type) bool {
+		b, ok := t.Underlying().(*types.Basic)
+		return ok && b.Info()&types.IsInteger != 0
+	}
+	if n := fieldOfType(c.truncatedHashType(), isInt); n != "" {
+		fTruncLen = n
+	}
+	if n := fieldOfType(c.keyMaterialType(), func(t types.Type) bool { return types.TypeString(t, nil) == "hash.Hash" }); n != "" {
+		fAkmHash = n
+	}
+	if n := fieldOfType(c.Named("pkg/ipmi", "AES128CBC"), func(t types.Type) bool { return types.TypeString(t, nil) == "crypto/cipher.Block" }); n != "" {
+		fAesCipher = n
+	}
 }
 
 // funcsBySig returns the package-level functions of module package rel whose
